@@ -422,11 +422,13 @@ def r7_closing_semantics(ctx):
     from ..absint import traces, NotClosedTest
     fn = _writer_flat(ctx, 'X12Writer._popToLoop')
     g = ctx.cfg(fn)
-    full = (('ISA', 'i1'), ('GS', 'g1'), ('ST', 's1'))
     counts = {'self.gs_count': 2, 'self.st_count': 3, 'self.seg_count': 7}
     bad = []
     runs = 0
-    for depth in range(4):
+    # (also with headers whose control number is blank: their trailers are due all the same)
+    for full, depth in [(f_, d_) for f_ in ((('ISA', 'i1'), ('GS', 'g1'), ('ST', 's1')), (('ISA', 'i1'), ('GS', ''), ('ST', ''))) for d_ in range(4)]:
+        if full[1][1] == '' and depth < 2:
+            continue
         for lt in ('ISA', 'GS', 'ST'):
             env = dict(counts)
             env['self.loops'] = full[:depth]
